@@ -3,8 +3,10 @@
 Readings (where the property text leaves a choice, the one under which the minimally repaired code is right):
 
 * "nearest tick" = round-half-even of 10^6*ppq*t/mpq evaluated exactly; a binary64 time whose exact image lies
-  within 1e-6 of x.5 may come out on either neighbour (the code rounds a binary64 product) - such values are
-  judged by the oracle only ("one of the two nearest ticks"); the model is told which neighbour was taken.
+  within 1e-6 of x.5 may come out on either neighbour (the code rounds a binary64 product) - the ORACLE accepts
+  "one of the two nearest ticks" there.  Round 5: the MODEL evaluates the expression in binary64 operation by
+  operation (`quantF`, Model/PerfFloat.lean) and is compared exactly, also there; `tick_float_near` bounds its
+  distance from the exact image by 1/2 + 5*2^-53*image.
 * "same track": a MIDI file has track positions, not track numbers.  The k-th smallest track number that
   carries an event becomes file track k, and the loader numbers the notes/controls/programs of the k-th track
   that holds any of them k (`Performance.sanitize_track_numbers`, order preserving after fixes/C06-3).  For a
@@ -30,6 +32,16 @@ Readings (where the property text leaves a choice, the one under which the minim
   after an edit of its seconds) and loaded, it comes back with its notes, controls, programs, key/time signatures
   and other meta events (second generation; fixes/C06-7 for the signatures and meta events of a part read from a
   file track after a notes-free track).
+* round 5 - forms and histories.  The loaders take a path (str, pathlib.Path) or a `mido.MidiFile` object, the saver
+  writes to a path, a file-like object, or returns the `MidiFile` (out=None).  "Loading any MIDI file ..." and
+  "Saving a performance ... and loading it back ..." are statements about the file / the performance, not about the
+  form it is handed over in or about what was done with the same object before: every load of a history of uses of
+  one `MidiFile` object (merged or not, any default tempo, through load_performance_midi / load_performance /
+  midi_to_notearray, object or path) returns what the same call returns on a fresh copy of the file, and every save
+  of a history of saves of one performance (any ppq / mpq / merging / out) writes what saving a fresh copy writes.
+  That the argument is left as it was is checked on what a reader can see of it (the messages with their delta
+  times, ticks_per_beat, type; the entries of the performance as a multiset) - a cache kept in a private attribute
+  or a harmless reordering of a list is not a change.
 """
 import io
 import math
@@ -43,13 +55,23 @@ from core import Eval
 PROPERTY = "C06"
 DRIVER = "drv_c06"
 PROPS = ["PartituraModel.Props.C06", "PartituraModel.Props.C06Merge", "PartituraModel.Props.C06Tracks",
-         "PartituraModel.Props.C06Silence", "PartituraModel.Props.C06Regen"]
+         "PartituraModel.Props.C06Silence", "PartituraModel.Props.C06Regen", "PartituraModel.Props.C06History",
+         "PartituraModel.Props.C06Defaults", "PartituraModel.Props.C06Float", "PartituraModel.Props.C06Tables",
+         "PartituraModel.Props.C06Pairing"]
 TRUSTED = [
     "mido: (de)serialisation of messages, delta times, merge_tracks (stable sort of absolute ticks), fix_end_of_track "
     "(modelled in absolute ticks as mergeAbs/fixEot and compared on every case)",
-    "binary64 evaluation of 10**6*ppq*t/mpq before np.round (model exact; times within 1e-6 of an x.5 tick image are "
-    "judged by the oracle only: either neighbour accepted)",
-    "binary64 evaluation of adjust_time (model exact rationals, compared with rtol 1e-9)",
+    "binary64: IEEE round-to-nearest-even of each operation of `10**6*ppq*t/mpq` (int->float, *, /), np.round = "
+    "round-half-even, and of each operation of adjust_time / midi_ticks_to_seconds - modelled operation by operation "
+    "over exact rationals (`b64` = MatchCodec.toBinary64, exponent range not modelled; `quantF`, `secondsAtF`) and compared "
+    "EXACTLY on every export, every load and every second generation (streams exp, saves, loadf, regenf); the times of "
+    "a performance are binary64 numbers (float / np.float64), not Python ints or Fractions",
+    "the exact-rational loader model `secondsAt` (what the theorems about tempo integration speak about) is compared "
+    "with rtol 1e-9 (loadt, histt); first_note_at_zero subtracts in binary64, the model exactly (sil/silt: rtol 1e-9)",
+    "round 5: a `mido.MidiFile` is what its readers see of it - ticks_per_beat, type, per track the messages with their "
+    "delta times (`MidiObj`); copy.deepcopy of it is a fresh copy; `obj.save` writes every track through fix_end_of_track "
+    "without touching the object (`MidiObj.saved`, compared on every S use); str / pathlib.Path / open file object / "
+    "BytesIO are the same file to mido",
     "Python sorted/list.sort are stable (modelled as stable insertion sort); dict/set of small ints "
     "(after fixes/C06-3 no set iteration order is observable)",
     "fifths_mode_to_key_name / key_name_to_fifths_mode (C12) map the 30 keys one to one",
@@ -65,10 +87,11 @@ TRUSTED = [
 PARTIAL = [
     "notes under merging (notes_kept_merged, notes_kept_merged_all, notes_kept_part_merged) are proved under the exact "
     "condition MergeOk on the written order of the notes of one channel and pitch (no overlap across the merged tracks; "
-    "two that meet on one tick are written in their order in time) - necessity is shown by a counter-example, not as a "
-    "general converse; outside it the model is only compared",
-    "programs: the added default programs are characterised (program 0 on a channel a part without programs uses on "
-    "that track) but not counted, and their tick (smallest tick written so far) is compared, not proved",
+    "two that meet on one tick are written in their order in time).  Round 5: for a FILE the proviso is proved necessary "
+    "and sufficient (pairing_complete_iff: all starts and releases of a channel and pitch become notes iff the messages "
+    "strictly alternate; pairing_loses_when_overlapping); for the EXPORTER the step from `the written messages alternate' "
+    "back to MergeOk is still shown by a counter-example only, not as a general converse; outside MergeOk the model is "
+    "only compared",
     "first_note_at_zero: the value of the control inserted at time 0 and the values of two controls of one "
     "(track, channel, number) at the same time are modelled and compared (silence_control_values covers groups with "
     "strictly increasing times); only the FIRST performed part is shifted (code as it is), sound_off (C14) is not checked; "
@@ -79,7 +102,18 @@ PARTIAL = [
     "first_note_at_zero (shift, change of tempo) are exercised by the generator and judged by the oracle, in the model "
     "they are just other seconds",
     "load_performance on match files is C08's subject; here only MIDI files go through the dispatcher",
-    "binary64: tick rounding at x.5 images and adjust_time sums are compared with tolerance, not proved",
+    "binary64: the exporter's tick is proved within 1/2 + 5*2^-53*image of the exact image, monotone, and equal to the "
+    "exact nearest tick away from the boundaries (tick_float_near, quantF_mono, tick_float_exact); for the loader's "
+    "seconds (`secondsAtF`, a sum of rounded terms) no error bound against the exact integral is proved - the binary64 "
+    "model is compared exactly, the exact model with tolerance; overflow / subnormal ranges are not modelled",
+    "round 5, histories: history_roundtrip composes every load of every history with controls_kept, programs_kept and "
+    "load_merged_notes; the unmerged per-track notes theorem (notes_kept_tracks) and the key/time signature / meta "
+    "theorems are not restated per history step (they apply to the same `loadFile` the step is proved equal to); "
+    "for an object that was never written the path form and the object form agree up to end_of_track entries of "
+    "meta_other (unsaved_object_load), which is what the code does; the outputs of midi_to_notearray other than "
+    "(onset_tick, pitch, velocity, channel) are only compared with a fresh copy's (duration_tick is C14/C13 matter)",
+    "the saver's argument dispatch is modelled for Performance / PerformedPart / list / an iterable with a foreign "
+    "element / a non-iterable; a one-shot iterator (generator) of parts is not modelled",
     "sound_off of loaded notes (C14) is not part of this check; PerformedPart.mpq of a loaded part is the default tempo "
     "(documented: the loader does not retain tempo) and is not checked",
 ]
@@ -98,14 +132,30 @@ RULE = ("structured random performances (1-4 parts/tracks, channels 0-15, veloci
         "a written file (any ppq/mpq) is loaded (load_performance_midi / load_performance / first_note_at_zero, merged or "
         "not), optionally shifted or rescaled in its seconds, saved as Performance / list / first part - 60% with the "
         "source's ppq and 60% with the loader's default tempo, the values the loaded parts carry - and loaded again, "
-        "once or twice.  distinct = distinct request text; non-trivial = at least one note or tempo event")
+        "once or twice.  Round 5: `lhist` - one file (raw, any tempo map, mostly several tracks; or a performance "
+        "exported with out=None) as ONE mido.MidiFile object (built from messages / parsed / the one the exporter returned, "
+        "i.e. without end_of_track), used 2-7 times in one history: load_performance_midi / load_performance (with and "
+        "without first_note_at_zero) / midi_to_notearray, each given the object, the path as str or as pathlib.Path, with "
+        "merge_tracks on/off, default_bpm in {120,60,90,100} or every option left to its default, interleaved with obj.save "
+        "and reading the messages; half of the histories end with an unmerged load of the object.  `shist` - one "
+        "Performance / PerformedPart / list saved 2-4 times with other ppq / mpq / merge_tracks_save (or the defaults) to a "
+        "BytesIO, a path (str / pathlib.Path), an open file, or out=None; 6% hand over a non-performance.  distinct = "
+        "distinct request text; non-trivial = at least one note or tempo event")
 LEVEL_TEXT = ("Lean 4 theorems over all tempo lists / message lists / note lists about an executable model of the exporter "
               "and the loader (tick rounding, bucket order and delta encoding, tempo integration, pairing, ids, controls, "
               "track merging incl. the composed notes / programs theorems for merged files, track renumbering by "
               "sanitize_track_numbers (all lists) and its composition with the loader, silence removal of load_performance, "
-              "the second generation file -> loader -> exporter incl. when stored ticks coincide with the new ticks); the model "
-              "is tied to the code by a differential run: message list of every written file, every loaded field, the "
-              "dispatcher's result and the part after first_note_at_zero are compared with the model, and an independent "
+              "the second generation file -> loader -> exporter incl. when stored ticks coincide with the new ticks; round 5: "
+              "histories of uses of one MidiFile object / of saves of one performance in every argument form - the argument is "
+              "unchanged and every use equals the use of a fresh copy, composed with the round-trip theorems; the default "
+              "programs exactly (count, (track, channel), tick) and the programs of the whole file as an exact multiset; the "
+              "exporter's tick in binary64: within 1/2 + 5*2^-53*image of the exact image, monotone (so the notes theorems hold "
+              "for the conversion the code uses); keyword defaults / forced keywords / note_hash regenerated from the live "
+              "source by harness/translate_c06.py); the model "
+              "is tied to the code by a differential run: message list of every written file (ticks compared exactly with the "
+              "binary64 model), every loaded field (seconds exactly with the binary64 model of adjust_time), the "
+              "dispatcher's result, the part after first_note_at_zero and every step of every history are compared with the "
+              "model, and an independent "
               "Fraction/float-based oracle states the property on the implementation's outputs.")
 
 PPQS = [96, 480, 960, 1]
@@ -567,6 +617,74 @@ def gen_regen(rng, tier):
             "final": {"bpm": rng.choice([120, 120, 120, 60, 90, 100]), "merge": rng.random() < 0.25}}
 
 
+
+# ------------------------------------------------------------------ round 5: argument forms, used several times
+LFORMS = ["obj", "obj", "obj", "obj", "str", "Path"]
+SFORMS = ["buf", "buf", "str", "Path", "none", "none", "fileobj"]
+
+
+def gen_lhist(rng, tier):
+    """ONE file, given to the loaders several times in one history in every form they accept - the `mido.MidiFile`
+    OBJECT itself (one and the same object for the whole history), the path as str, the path as pathlib.Path - with
+    different options (merge_tracks, default_bpm, first_note_at_zero), through load_performance_midi,
+    load_performance and midi_to_notearray, interleaved with saving the object and reading its messages directly.
+    Every use must return what the same call returns on a FRESH copy of the file, and must leave the object as it
+    was.  The object is one mido built from messages, one parsed from a file, or the one
+    `save_performance_midi(..., out=None)` returned (no end_of_track in its tracks yet)."""
+    if rng.random() < 0.6:
+        src = gen_raw(rng, tier)
+        if len(src["tracks"]) == 1 and rng.random() < 0.7:
+            src = gen_raw(rng, tier)
+        how = rng.choice(["built", "parsed", "parsed"])
+    else:
+        src = gen_perf(rng, tier)
+        how = rng.choice(["returned", "returned", "parsed"])
+    src["lp"] = False
+    ops = []
+    for _ in range(rng.choice([2, 3, 3, 4, 5, 6])):
+        r = rng.random()
+        form = rng.choice(LFORMS)
+        bpm = rng.choice([120, 120, 120, 60, 90, 100])
+        merge = rng.random() < 0.5
+        if r < 0.08:
+            ops.append([rng.choice(["Ld", "Ld", "Pd"]), form])  # every option left to its default
+        elif r < 0.5:
+            ops.append(["L", form, bpm, merge])
+        elif r < 0.72:
+            ops.append(["P", form, bpm, merge, rng.random() < 0.5])
+        elif r < 0.82:
+            ops.append(["N", form])
+        elif r < 0.92:
+            ops.append(["S"])
+        else:
+            ops.append(["I"])
+    if rng.random() < 0.5:
+        # the order that matters most: something merged first, the tracks wanted afterwards
+        ops.append(["L", "obj", rng.choice([120, 60]), False])
+    return {"k": "lhist", "src": src, "how": how, "ops": ops}
+
+
+def gen_shist(rng, tier):
+    """ONE performance (Performance / PerformedPart / list), saved several times in one history with different
+    options (ppq, mpq, merge_tracks_save) and in every form of `out` (file-like object, path as str / pathlib.Path,
+    an open file, None = the MidiFile is returned).  Every save must write what saving a fresh copy of the
+    performance with these options writes, each written file must hold the ORIGINAL performance on its own tick
+    grid, and the performance must be left as it was.  A few histories hand over something that is no
+    performance (ValueError is the documented answer)."""
+    src = gen_perf(rng, tier)
+    src["lp"] = False
+    ops = []
+    for _ in range(rng.choice([2, 2, 3, 4])):
+        if rng.random() < 0.12:
+            ops.append([rng.choice(SFORMS), None, None, None])  # every option left to its default
+        else:
+            ops.append([rng.choice(SFORMS), rng.choice(PPQS + [480]), rng.choice(MPQS + [500000]), rng.random() < 0.4])
+    bad = None
+    if rng.random() < 0.06:
+        bad = rng.choice(["mixed", "other"])
+    return {"k": "shist", "src": src, "ops": ops, "bad": bad}
+
+
 def cases(rng, tier):
     n = {"quick": 1200, "thorough": 15000, "search": 4000}.get(tier, 1200)
     # every configuration of the finite part of the quantifier on a few performances
@@ -588,6 +706,10 @@ def cases(rng, tier):
             yield gen_adj(rng, tier)
         if i % 3 == 0:
             yield gen_regen(rng, tier)
+        if i % 4 == 1:
+            yield gen_lhist(rng, tier)
+        if i % 8 == 2:
+            yield gen_shist(rng, tier)
 
 
 # ------------------------------------------------------------------ reference arithmetic (oracle)
@@ -1036,6 +1158,17 @@ def view_of(pps):
     return view
 
 
+def part_req(p):
+    """a performed part (as `view_of` gives it) on the wire"""
+    mo = W.lst(lambda c: "%s %s %d" % (W.q(c[0]), "7 0 0 0" if c[1] == 0 else "8 %d 0 0" % c[1], c[2]), p["metas"])
+    ks = W.lst(lambda c: "%s 6 %d %d 0 %d" % (W.q(c[0]), c[1], c[2], c[3]), p["keysigs"])
+    ts = W.lst(lambda c: "%s 5 %d %d 0 %d" % (W.q(c[0]), c[1], c[2], c[3]), p["timesigs"])
+    cs = W.lst(lambda c: "%s %d %d %d %d" % (W.q(c[0]), c[1], c[2], c[3], c[4]), p["controls"])
+    ns = W.lst(lambda n: "%d %d %d %d %s %s" % (n[0], n[1], n[2], n[3], W.q(n[4]), W.q(n[5])), p["notes"])
+    ps = W.lst(lambda c: "%s %d %d %d" % (W.q(c[0]), c[1], c[2], c[3]), p["programs"])
+    return " ".join([mo, ks, ts, cs, ns, ps])
+
+
 def near_boundary(view, ppq, mpq, eps=Fraction(1, 10**4)):
     """is the tick image of any time of the view within eps of a half-tick boundary, or any time beyond 20000 s"""
     for p in view:
@@ -1091,19 +1224,10 @@ def export_and_reload(ev, d, pps, arg):
     if st:
         ev.info["stale_ticks_under_equal_ppq_mpq"] = ev.info.get("stale_ticks_under_equal_ppq_mpq", 0) + 1
 
-    def part_req(p):
-        mo = W.lst(lambda c: "%s %s %d" % (W.q(c[0]), "7 0 0 0" if c[1] == 0 else "8 %d 0 0" % c[1], c[2]), p["metas"])
-        ks = W.lst(lambda c: "%s 6 %d %d 0 %d" % (W.q(c[0]), c[1], c[2], c[3]), p["keysigs"])
-        ts = W.lst(lambda c: "%s 5 %d %d 0 %d" % (W.q(c[0]), c[1], c[2], c[3]), p["timesigs"])
-        cs = W.lst(lambda c: "%s %d %d %d %d" % (W.q(c[0]), c[1], c[2], c[3], c[4]), p["controls"])
-        ns = W.lst(lambda n: "%d %d %d %d %s %s" % (n[0], n[1], n[2], n[3], W.q(n[4]), W.q(n[5])), p["notes"])
-        ps = W.lst(lambda c: "%s %d %d %d" % (W.q(c[0]), c[1], c[2], c[3]), p["programs"])
-        return " ".join([mo, ks, ts, cs, ns, ps])
-
     buf = io.BytesIO()
     _, e = call(save_performance_midi, arg, buf, mpq=mpq, ppq=ppq, merge_tracks_save=d["msave"])
-    req = "exp %d %d %s %s %s" % (ppq, mpq, W.b(d["msave"]), W.lst(lambda o: "%s %d" % (W.q(o[0]), o[1]), overrides),
-                                  W.lst(part_req, view))
+    # round 5: the model evaluates int(np.round(10**6*ppq*t/mpq)) in binary64 itself (`quantF`): nothing is handed over
+    req = "exp %d %d %s %s" % (ppq, mpq, W.b(d["msave"]), W.lst(part_req, view))
     ev.requests.append(req)
     if e:
         ev.impl.append("err:" + type(e).__name__)
@@ -1126,6 +1250,8 @@ def export_and_reload(ev, d, pps, arg):
     ev.impl.append(loaded_int_text(perf))
     ev.requests.append("loadt " + lreq)
     ev.impl.append(("@approx", loaded_sec(perf), 1e-9))
+    ev.requests.append("loadf " + lreq)  # round 5: the binary64 model of adjust_time, compared exactly
+    ev.impl.append(("@approx", loaded_sec(perf), 0.0))
     if mf.ticks_per_beat != ppq:
         ev.oracle.append("export: ticks_per_beat %r, asked for %r" % (mf.ticks_per_beat, ppq))
     check_loaded_against_file(ev, perf, tracks, mf.ticks_per_beat, dmpq, d["mload"], "load")
@@ -1368,6 +1494,8 @@ def eval_raw(d):
     ev.impl.append(loaded_int_text(perf))
     ev.requests.append("loadt " + lreq)
     ev.impl.append(("@approx", loaded_sec(perf), 1e-9))
+    ev.requests.append("loadf " + lreq)  # round 5: the binary64 model of adjust_time, compared exactly
+    ev.impl.append(("@approx", loaded_sec(perf), 0.0))
     check_loaded_against_file(ev, perf, tracks, ppq, dmpq, d["merge"], "load")
     if d.get("lp"):
         check_load_performance(ev, buf.getvalue(), perf, lreq, d["bpm"], d["merge"])
@@ -1479,11 +1607,401 @@ def eval_regen(d):
                 c["ppq"], c["mpq"], W.b(c["msave"]), req_tracks(file_tracks(mf1))))
             ev.impl.append(ev.impl[idx])
             ev.info["regen_model"] = ev.info.get("regen_model", 0) + 1
+        if c["edit"][0] == "none" and c["via"] != "fnz":
+            # round 5: the same composition with every number in binary64 as the code computes it (`secondsAtF`, then
+            # `quantF`): no tolerance and no exclusion of the x.5 boundaries
+            mf1 = mido.MidiFile(file=io.BytesIO(data))
+            ev.requests.append("regenf %d %d %s %s %d %d %s %s" % (
+                mf1.ticks_per_beat, default_mpq_of(c["bpm"]), W.b(c["merge"]), W.b(c["kind"] == "PerformedPart"),
+                c["ppq"], c["mpq"], W.b(c["msave"]), req_tracks(file_tracks(mf1))))
+            ev.impl.append(ev.impl[idx])
+            ev.info["regen_model_binary64"] = ev.info.get("regen_model_binary64", 0) + 1
+            if near_boundary(r[2], c["ppq"], c["mpq"]):
+                ev.info["regen_model_binary64_at_boundary"] = ev.info.get("regen_model_binary64_at_boundary", 0) + 1
         data = r[0]
         keys.append(r[1])
         nnotes += sum(len(p["notes"]) for p in r[2])
         ev.info["generations"] = ev.info.get("generations", 0) + 1
     ev.key = ("regen|" + "|".join(keys)) if nnotes else None
+    return ev
+
+
+
+# ------------------------------------------------------------------ round 5: histories of uses of one argument
+def _obj_state(mf):
+    """what a reader can see of a MidiFile object"""
+    return (int(mf.ticks_per_beat), int(mf.type), [[(int(m.time),) + msg_code(m) for m in tr] for tr in mf.tracks])
+
+
+def _fmt_obj(ppq, tracks):
+    return W.f_tuple(W.f_int(ppq), W.f_list(fmt_track, tracks))
+
+
+def _abs_tracks(tracks):
+    out = []
+    for tr in tracks:
+        t, l = 0, []
+        for m in tr:
+            t += m[0]
+            l.append((t,) + tuple(m[1:]))
+        out.append(l)
+    return out
+
+
+def _na_rows(na):
+    """the rows of a note array, sorted (their order is not part of this check)"""
+    return sorted((int(r["onset_tick"]), int(r["pitch"]), int(r["velocity"]), int(r["channel"])) for r in na)
+
+
+def _use_text(op):
+    if op[0] == "L":
+        return "load_performance_midi(%s, default_bpm=%r, merge_tracks=%r)" % (op[1], op[2], op[3])
+    if op[0] == "P":
+        return "load_performance(%s, default_bpm=%r, merge_tracks=%r, first_note_at_zero=%r)" % (op[1], op[2], op[3], op[4])
+    if op[0] == "N":
+        return "midi_to_notearray(%s)" % op[1]
+    if op[0] in ("Ld", "Pd"):
+        return "%s(%s)" % ("load_performance_midi" if op[0] == "Ld" else "load_performance", op[1])
+    return {"S": "obj.save(file)", "I": "iterating the messages"}[op[0]]
+
+
+def eval_lhist(d):
+    import copy
+    import os
+    import pathlib
+    import tempfile
+    import mido
+    from partitura.performance import Performance
+    from partitura.io import load_performance
+    from partitura.io.exportmidi import save_performance_midi
+    from partitura.io.importmidi import load_performance_midi, midi_to_notearray
+
+    ev = Eval()
+    src = d["src"]
+    # ---- the object
+    if src["k"] == "raw":
+        mf = mido.MidiFile(type=1 if len(src["tracks"]) != 1 else 0, ticks_per_beat=src["ppq"])
+        for tr in src["tracks"]:
+            mf.tracks.append(mido.MidiTrack([code_msg(tuple(m[1:]), m[0]) for m in tr]))
+    else:
+        pps, e = call(build_parts, src)
+        if e:
+            return ev
+        arg = pps[0] if src["kind"] == "PerformedPart" else list(pps)
+        if src["kind"] == "Performance":
+            arg, e = call(Performance, pps)
+            if e:
+                return ev
+        mf, e = call(save_performance_midi, arg, None, mpq=src["mpq"], ppq=src["ppq"], merge_tracks_save=src["msave"])
+        if e or mf is None:
+            ev.oracle.append("history export: save_performance_midi(..., out=None) %s" % ("raised %r" % (e,) if e else "returned None"))
+            return ev
+    if d["how"] == "parsed":
+        buf = io.BytesIO()
+        mf.save(file=buf)
+        mf = mido.MidiFile(file=io.BytesIO(buf.getvalue()))
+    pristine = copy.deepcopy(mf)
+    state0 = _obj_state(mf)
+    ppq = state0[0]
+    buf = io.BytesIO()
+    pristine.save(file=buf)
+    data = buf.getvalue()
+    saved_state = _obj_state(mido.MidiFile(file=io.BytesIO(data)))
+    fd, path = tempfile.mkstemp(suffix=".mid", prefix="c06h_", dir="/dev/shm" if os.path.isdir("/dev/shm") else None)
+    with os.fdopen(fd, "wb") as f:
+        f.write(data)
+    texts, secs, model_ops, done = [], [], [], []
+    nnotes = 0
+    try:
+        for op in d["ops"]:
+            kind = op[0]
+            form = op[1] if len(op) > 1 else "obj"
+            via_path = form in ("str", "Path")
+            given = mf if form == "obj" else (path if form == "str" else pathlib.Path(path))
+            # the reference: the same call on a copy of the file nobody has touched
+            fresh = mido.MidiFile(file=io.BytesIO(data)) if via_path else copy.deepcopy(pristine)
+            seen_tracks = saved_state[2] if via_path else state0[2]
+            where = "use %d, %s, after [%s]" % (len(done), _use_text(op), "; ".join(done))
+            kw = {}
+            if kind in ("Ld", "Pd"):
+                # the options the call leaves out, as the live signature has them (the model takes them from the table
+                # harness/translate_c06.py regenerates: Gen.C06_LOAD_MPQ, ...)
+                import inspect
+                sig = inspect.signature(load_performance_midi if kind == "Ld" else load_performance).parameters
+                op = [kind[0], form, sig["default_bpm"].default, bool(sig["merge_tracks"].default)] + \
+                    ([bool(sig["first_note_at_zero"].default)] if kind == "Pd" else [])
+                dflt, kind = True, kind[0]
+            else:
+                dflt = False
+                if kind == "L":
+                    kw = dict(default_bpm=op[2], merge_tracks=op[3])
+                elif kind == "P":
+                    kw = dict(default_bpm=op[2], merge_tracks=op[3], first_note_at_zero=op[4])
+            if kind == "L":
+                got, e = call(load_performance_midi, given, **kw)
+                ref, e2 = call(load_performance_midi, fresh, **kw)
+                model_ops.append(("5 %s" % W.b(via_path)) if dflt else "0 %s %d %s" % (W.b(via_path), default_mpq_of(op[2]), W.b(op[3])))
+                if e or e2:
+                    texts.append("(L,err)")
+                    secs.append("err")
+                    ev.oracle.append("history load: %s raised %r" % (where, e or e2))
+                else:
+                    texts.append("(L," + loaded_int_text(got) + ")")
+                    secs.append(loaded_sec(got))
+                    nnotes += sum(len(pp.notes) for pp in got.performedparts)
+                    if loaded_int_text(got) != loaded_int_text(ref) or loaded_sec(got) != loaded_sec(ref):
+                        ev.oracle.append("history load: %s returned %d part(s) %s; a fresh copy of the same file gives %d part(s) %s"
+                                         % (where, len(got.performedparts), loaded_int_text(got)[:300], len(ref.performedparts), loaded_int_text(ref)[:300]))
+                    check_loaded_against_file(ev, got, seen_tracks, ppq, default_mpq_of(op[2]), op[3], "history load (%s)" % where)
+            elif kind == "P":
+                got, e = call(load_performance, given, **kw)
+                ref, e2 = call(load_performance, fresh, **kw)
+                model_ops.append(("6 %s" % W.b(via_path)) if dflt else "1 %s %d %s %s" % (W.b(via_path), default_mpq_of(op[2]), W.b(op[3]), W.b(op[4])))
+                if e or e2:
+                    texts.append("(P,err)")
+                    secs.append("err")
+                    ev.oracle.append("history dispatch: %s raised %r" % (where, e or e2))
+                else:
+                    texts.append("(P," + spart_int_text(got) + ")")
+                    secs.append(spart_sec(got))
+                    if _snapshot(got) != _snapshot(ref):
+                        ev.oracle.append("history dispatch: %s returned %d part(s) %s; a fresh copy of the same file gives %d part(s) %s"
+                                         % (where, len(got.performedparts), spart_int_text(got)[:300], len(ref.performedparts), spart_int_text(ref)[:300]))
+                    base, e3 = call(load_performance_midi, copy.deepcopy(fresh if via_path else pristine), default_bpm=op[2], merge_tracks=op[3])
+                    if not e3:
+                        if op[4]:
+                            oracle_silence(ev, _snapshot(base), _snapshot(got))
+                        elif _snapshot(base) != _snapshot(got):
+                            ev.oracle.append("history dispatch: %s differs from load_performance_midi of a fresh copy" % where)
+            elif kind == "N":
+                got, e = call(midi_to_notearray, given)
+                ref, e2 = call(midi_to_notearray, fresh)
+                model_ops.append("2 %s" % W.b(via_path))
+                secs.append([])
+                if e is not None and e2 is not None:
+                    texts.append("(N,err)")  # a file without notes, controls and programs: nothing to concatenate
+                elif e is not None or e2 is not None:
+                    texts.append("(N,err)")
+                    ev.oracle.append("history notearray: %s %s, on a fresh copy of the same file it %s"
+                                     % (where, "raised %r" % (e,) if e else "returned", "raised %r" % (e2,) if e2 else "returned"))
+                else:
+                    rows = _na_rows(got)
+                    texts.append("(N," + W.f_list(lambda r: W.f_tuple(*[W.f_int(x) for x in r]), rows) + ")")
+                    full = lambda a: sorted((float(r["onset_sec"]), float(r["duration_sec"]), int(r["onset_tick"]), int(r["pitch"]),
+                                             int(r["velocity"]), int(r["track"]), int(r["channel"]), str(r["id"])) for r in a)
+                    same = full(got) == full(ref)
+                    if not same:
+                        ev.oracle.append("history notearray: %s returned (onset_tick, pitch, velocity, channel) %r; a fresh copy of the same file gives %r"
+                                         % (where, rows[:8], _na_rows(ref)[:8]))
+            elif kind == "S":
+                b2 = io.BytesIO()
+                _, e = call(mf.save, file=b2)
+                model_ops.append("3")
+                secs.append([])
+                if e:
+                    texts.append("(S,err)")
+                    ev.oracle.append("history save: %s raised %r" % (where, e))
+                else:
+                    st = _obj_state(mido.MidiFile(file=io.BytesIO(b2.getvalue())))
+                    texts.append("(S," + _fmt_obj(st[0], st[2]) + ")")
+                    if b2.getvalue() != data:
+                        ev.oracle.append("history save: %s wrote another file than the object saved before any use (%d tracks, before %d)"
+                                         % (where, len(st[2]), len(saved_state[2])))
+            else:
+                model_ops.append("4")
+                secs.append([])
+                texts.append("(I," + W.f_list(fmt_track, _abs_tracks([[(int(m.time),) + msg_code(m) for m in tr] for tr in mf.tracks])) + ")")
+            st = _obj_state(mf)
+            if st != state0:
+                diff = ""
+                for ti, (ta, tb) in enumerate(zip(state0[2], st[2])):
+                    for mi, (ma, mb) in enumerate(zip(ta, tb)):
+                        if ma != mb:
+                            diff = "; first difference: track %d message %d (delta, kind, a, b, c) %r -> %r" % (ti, mi, ma, mb)
+                            break
+                    if diff:
+                        break
+                ev.oracle.append("history object: %s changed the MidiFile object it was given: %d track(s) with %r message(s) before, %d track(s) with %r after%s%s"
+                                 % (where, len(state0[2]), [len(t) for t in state0[2]], len(st[2]), [len(t) for t in st[2]], diff,
+                                    "" if st[:2] == state0[:2] else "; ticks_per_beat/type %r -> %r" % (state0[:2], st[:2])))
+                break
+            done.append(_use_text(d["ops"][len(done)]))
+    finally:
+        try:
+            os.unlink(path)
+        except OSError:
+            pass
+    if len(texts) == len(d["ops"]):
+        st = _obj_state(mf)
+        hreq = "%d %s %s" % (ppq, req_tracks(state0[2]), W.lst(lambda o: o, model_ops))
+        ev.requests.append("hist " + hreq)
+        ev.impl.append(W.f_tuple(W.f_list(lambda t: t, texts), _fmt_obj(st[0], st[2])))
+        if "err" not in secs:
+            ev.requests.append("histt " + hreq)
+            ev.impl.append(("@approx", secs, 1e-9))
+    ev.key = ("lhist|%d|%s|%s" % (ppq, req_tracks(state0[2]), " ".join(model_ops))) if nnotes else None
+    ev.info.update({"lhist_uses": len(d["ops"]), "lhist_obj_" + d["how"]: 1,
+                    "lhist_merged_then_unmerged_on_object": int(_merged_then_unmerged(d["ops"])),
+                    "lhist_multi_track": int(len(state0[2]) > 1)})
+    for op in d["ops"]:
+        if op[0] in ("Ld", "Pd"):
+            ev.info["lhist_use_defaults"] = ev.info.get("lhist_use_defaults", 0) + 1
+        k = "lhist_use_%s_%s" % (op[0][0], op[1] if len(op) > 1 else "obj")
+        ev.info[k] = ev.info.get(k, 0) + 1
+    return ev
+
+
+def _merged_then_unmerged(ops):
+    merged = False
+    for op in ops:
+        on_obj = len(op) > 1 and op[1] == "obj"
+        if on_obj and (op[0] == "N" or (op[0] in ("L", "P") and op[3])):
+            merged = True
+        elif merged and on_obj and (op[0] in ("Ld", "Pd") or (op[0] in ("L", "P") and not op[3])):
+            return True
+    return False
+
+
+def _arg_snapshot(pps):
+    """everything the performed parts hold, as a multiset per list (the order of a list is not judged)"""
+    out = []
+    for pp in pps:
+        part = []
+        for name in ("notes", "controls", "programs", "key_signatures", "time_signatures", "meta_other"):
+            l = getattr(pp, name)
+            part.append(sorted(repr(sorted((str(k), repr(v)) for k, v in dict(x).items() if k not in ("sound_off",))) for x in l))
+        part.append((getattr(pp, "ppq", None), getattr(pp, "mpq", None)))
+        out.append(part)
+    return out
+
+
+def eval_shist(d):
+    import os
+    import pathlib
+    import tempfile
+    import mido
+    from partitura.performance import Performance
+    from partitura.io.exportmidi import save_performance_midi
+    from partitura.io.importmidi import load_performance_midi
+
+    ev = Eval()
+    src = d["src"]
+
+    def make():
+        pps = build_parts(src)
+        if d.get("bad") == "other":
+            return pps, 42
+        if d.get("bad") == "mixed":
+            return pps, list(pps) + [42]
+        if src["kind"] == "Performance":
+            return pps, Performance(pps)
+        if src["kind"] == "PerformedPart":
+            return pps[:1], pps[0]
+        return pps, list(pps)
+
+    r, e = call(make)
+    if e:
+        return ev
+    pps, arg = r
+    view0 = view_of(pps)
+    snap0 = _arg_snapshot(pps)
+    kindno = {"Performance": 0, "PerformedPart": 1, "list": 2}[src["kind"]]
+    if d.get("bad"):
+        kindno = 3 if d["bad"] == "mixed" else 4
+    tmpdir = tempfile.mkdtemp(prefix="c06s_", dir="/dev/shm" if os.path.isdir("/dev/shm") else None)
+    texts, model_ops, done = [], [], []
+    try:
+        for oi, op in enumerate(d["ops"]):
+            form, ppq, mpq, msave = op
+            if ppq is None:
+                kw = {}  # every option left to its default; what they are is read off the written file below
+                where = "save %d (out=%s, options left to their defaults) after [%s]" % (oi, form, "; ".join(done))
+                model_ops.append("1 0 0 0 %s" % W.b(form == "none"))
+            else:
+                kw = dict(mpq=mpq, ppq=ppq, merge_tracks_save=msave)
+                where = "save %d (out=%s, ppq=%d, mpq=%d, merge_tracks_save=%r) after [%s]" % (oi, form, ppq, mpq, msave, "; ".join(done))
+                model_ops.append("0 %d %d %s %s" % (ppq, mpq, W.b(msave), W.b(form == "none")))
+            path = os.path.join(tmpdir, "f%d.mid" % oi)
+            returned = None
+            if form == "buf":
+                out = io.BytesIO()
+                _, e = call(save_performance_midi, arg, out, **kw)
+                data = out.getvalue()
+            elif form in ("str", "Path"):
+                _, e = call(save_performance_midi, arg, path if form == "str" else pathlib.Path(path), **kw)
+                data = open(path, "rb").read() if (not e and os.path.exists(path)) else b""
+            elif form == "fileobj":
+                with open(path, "wb") as fh:
+                    _, e = call(save_performance_midi, arg, fh, **kw)
+                data = open(path, "rb").read()
+            else:
+                returned, e = call(save_performance_midi, arg, None, **kw)
+                data = b""
+                if not e and returned is not None:
+                    b2 = io.BytesIO()
+                    returned.save(file=b2)
+                    data = b2.getvalue()
+            if d.get("bad"):
+                texts.append("err" if isinstance(e, ValueError) else ("err:" + type(e).__name__ if e else "no-error"))
+                done.append("save %d" % oi)
+                continue
+            if e:
+                texts.append("err")
+                ev.oracle.append("history export: %s raised %r" % (where, e))
+                break
+            if form == "none" and returned is None:
+                texts.append("err")
+                ev.oracle.append("history export: %s returned None, documented: the MidiFile" % where)
+                break
+            # the reference: a fresh copy of the performance, saved once
+            r2, e2 = call(make)
+            ref = io.BytesIO()
+            if not e2:
+                _, e2 = call(save_performance_midi, r2[1], ref, **kw)
+            mfw = mido.MidiFile(file=io.BytesIO(data))
+            tracks = file_tracks(mfw)
+            if ppq is None:
+                # the resolution and tempo the file declares are the ones its ticks have to be judged by
+                import inspect
+                ppq = int(mfw.ticks_per_beat)
+                tempi = [m[2] for tr in tracks for m in tr if m[1] == 4]
+                mpq = tempi[0] if tempi else int(inspect.signature(save_performance_midi).parameters["mpq"].default)
+                msave = bool(inspect.signature(save_performance_midi).parameters["merge_tracks_save"].default)
+                ev.info["shist_default_options"] = ev.info.get("shist_default_options", 0) + 1
+            if form == "none":
+                texts.append(W.f_tuple(W.f_int(returned.type), W.f_list(fmt_track, file_tracks(returned))))
+            else:
+                texts.append(W.f_tuple(W.f_int(mfw.type), W.f_list(fmt_track, tracks)))
+            if not e2 and ref.getvalue() != data:
+                mfr = mido.MidiFile(file=io.BytesIO(ref.getvalue()))
+                ev.oracle.append("history export: %s wrote %r..., saving a fresh copy of the same performance with the same options writes %r..."
+                                 % (where, [t[:6] for t in tracks][:3], [t[:6] for t in file_tracks(mfr)][:3]))
+            cfg = {"ppq": ppq, "mpq": mpq, "msave": msave, "mload": False, "bpm": 120, "kind": src["kind"]}
+            n0 = len(ev.oracle)
+            oracle_export(ev, cfg, view0, mfw, tracks)
+            perf, e3 = call(load_performance_midi, mido.MidiFile(file=io.BytesIO(data)), default_bpm=120, merge_tracks=False)
+            if e3:
+                ev.oracle.append("history load: loading the file of %s raised %r" % (where, e3))
+            else:
+                oracle_roundtrip(ev, cfg, view0, perf)
+            for j in range(n0, len(ev.oracle)):
+                ev.oracle[j] = ev.oracle[j].split(":")[0] + ": [" + where + "]" + ev.oracle[j][len(ev.oracle[j].split(":")[0]) + 1:]
+            if _arg_snapshot(pps) != snap0:
+                ev.oracle.append("history argument: %s changed the performance it was given" % where)
+                break
+            done.append("save %d (%s, ppq=%r, mpq=%r, merge=%r)" % (oi, form, op[1], op[2], op[3]))
+    finally:
+        import shutil
+
+        shutil.rmtree(tmpdir, ignore_errors=True)
+    if len(texts) == len(d["ops"]):
+        sreq = "saves %d %s %s" % (kindno, W.lst(part_req, view0), W.lst(lambda o: o, model_ops))
+        ev.requests.append(sreq)
+        ev.impl.append(W.f_list(lambda t: t, texts))
+        ev.key = ("shist|" + sreq) if any(p["notes"] for p in view0) else None
+    ev.info.update({"shist_saves": len(d["ops"]), "shist_bad_argument": int(bool(d.get("bad")))})
+    for op in d["ops"]:
+        ev.info["shist_out_" + op[0]] = ev.info.get("shist_out_" + op[0], 0) + 1
     return ev
 
 
@@ -1518,6 +2036,10 @@ def evaluate(d):
         return eval_raw(d)
     if d["k"] == "regen":
         return eval_regen(d)
+    if d["k"] == "lhist":
+        return eval_lhist(d)
+    if d["k"] == "shist":
+        return eval_shist(d)
     return eval_adj(d)
 
 
@@ -1585,6 +2107,30 @@ def shrink(d):
             c = copy.deepcopy(d)
             c["final"]["merge"] = False
             yield c
+        for s2 in shrink(d["src"]):
+            c = copy.deepcopy(d)
+            c["src"] = s2
+            yield c
+    elif d["k"] in ("lhist", "shist"):
+        if len(d["ops"]) > 1:
+            for i in range(len(d["ops"])):
+                c = copy.deepcopy(d)
+                del c["ops"][i]
+                yield c
+        if d["k"] == "lhist":
+            for i, op in enumerate(d["ops"]):
+                if len(op) > 1 and op[1] != "obj":
+                    c = copy.deepcopy(d)
+                    c["ops"][i][1] = "obj"
+                    yield c
+                if op[0] == "P":
+                    c = copy.deepcopy(d)
+                    c["ops"][i] = ["L"] + op[1:4]
+                    yield c
+            if d["how"] != "parsed":
+                c = copy.deepcopy(d)
+                c["how"] = "parsed"
+                yield c
         for s2 in shrink(d["src"]):
             c = copy.deepcopy(d)
             c["src"] = s2
